@@ -76,6 +76,9 @@ func ordEdge(w *World, r *EngineResult) {
 						if k.Value != nil && !k.IsNil() && k.Value.String() != "false" && k.Value.String() != "0" && k.Value.String() != `""` {
 							set[fa.Field] = true
 						}
+					} else if b, ok := sto.Val.Type().Underlying().(*types.Basic); ok && b.Kind() == types.Bool {
+						// a computed flag (`IsExtend: isExtend`) can be true as well
+						set[fa.Field] = true
 					}
 				}
 			}
